@@ -32,12 +32,10 @@ import (
 	"verifharness/internal/h"
 )
 
-const (
-	sigReuse  = "C32.subscription-id-reused-while-live"
-	sigMode   = "C32.setmonitoringmode-foreign-item"
-	sigDelete = "C32.deletemonitoreditems-foreign-item"
-	sigStale  = "C32.stale-delete-kills-foreign-subscription"
-)
+// All four defects this runner used to classify (subscription id reused while
+// live; SetMonitoringMode / DeleteMonitoredItems acting on foreign items; a stale
+// background DeleteSubscription deleting a newer subscription) are repaired:
+// every oracle failure is unclassified now and makes the check fail.
 
 type token struct {
 	id      uint32
@@ -168,7 +166,7 @@ func (e *env) stateTok() string {
 	for _, id := range ids {
 		pend = append(pend, strconv.Itoa(id))
 	}
-	return fmt.Sprintf("subs=%s items=%s pend=%s ctr=%d", commaList(subs), commaList(items), commaList(pend), e.srv.MonitoredItemService.VerifItemCounter())
+	return fmt.Sprintf("subs=%s items=%s pend=%s ctr=%d sctr=%d", commaList(subs), commaList(items), commaList(pend), e.srv.MonitoredItemService.VerifItemCounter(), e.srv.SubscriptionService.VerifSubCounter())
 }
 
 // ---------------------------------------------------------------- operations
@@ -307,7 +305,7 @@ func (e *env) applyToken(k int, caseName string) string {
 	}
 	// ---- oracle: the call was spawned for t.target; does it hit something else?
 	if t.target != nil && victim.obj != t.target {
-		e.fail(caseName, sigStale, fmt.Sprintf("a background DeleteSubscription(%d) spawned for a subscription of session %d ran after the id was handed out again and deleted a different subscription, owned by session %d",
+		e.fail(caseName, "", fmt.Sprintf("a background DeleteSubscription(%d) spawned for a subscription of session %d ran after the id was handed out again and deleted a different subscription, owned by session %d",
 			t.id, e.owner(t.target.VerifOwner()), victim.owner))
 	}
 	if t.by != 0 && victim.owner != t.by && victim.obj == t.target {
@@ -350,13 +348,15 @@ func (e *env) exec(o op, caseName string) string {
 		}
 		id := resp.(*ua.CreateSubscriptionResponse).SubscriptionID
 		out = fmt.Sprintf("id=%d", id)
+		// ---- oracle: the id handed out is not named by a background deletion that is still to run
+		for _, t := range e.pend {
+			if t.id == id {
+				e.fail(caseName, "", fmt.Sprintf("CreateSubscription handed out id %d while a background DeleteSubscription(%d) is still pending", id, id))
+			}
+		}
 		// ---- oracle: the id handed out is not in use
 		if old, live := pre.subs[id]; live {
-			sig := ""
-			if int(id) == len(pre.subs)+1 {
-				sig = sigReuse
-			}
-			e.fail(caseName, sig, fmt.Sprintf("CreateSubscription handed out id %d while a subscription with that id (session %d) is alive; live ids before: %d", id, old.owner, len(pre.subs)))
+			e.fail(caseName, "", fmt.Sprintf("CreateSubscription handed out id %d while a subscription with that id (session %d) is alive; live ids before: %d", id, old.owner, len(pre.subs)))
 		}
 	case "ds":
 		resp, t := e.call(&ua.DeleteSubscriptionsRequest{RequestHeader: e.hdr(o.sess), SubscriptionIDs: o.ids})
@@ -500,14 +500,8 @@ func (e *env) exec(o op, caseName string) string {
 				for _, x := range o.ids {
 					named = named || x == id
 				}
-				sig := ""
-				switch {
-				case o.kind == "sm" && named && ok && p.mode != it.mode:
-					sig = sigMode
-				case o.kind == "di" && named && !ok:
-					sig = sigDelete
-				}
-				e.fail(caseName, sig, fmt.Sprintf("%s by session %d changed monitored item %d of session %d (before %v, after %v present=%v); the answer was %s", o, o.sess, id, it.owner, it, p, ok, out))
+				_ = named
+				e.fail(caseName, "", fmt.Sprintf("%s by session %d changed monitored item %d of session %d (before %v, after %v present=%v); the answer was %s", o, o.sess, id, it.owner, it, p, ok, out))
 			}
 		}
 	}
@@ -547,7 +541,8 @@ func (e *env) cleanup() bool {
 
 func (e *env) runHistory(ops []op, generate int) {
 	ctr := e.srv.MonitoredItemService.VerifItemCounter()
-	e.cur = fmt.Sprintf("run %d (history being generated)", ctr)
+	sctr := e.srv.SubscriptionService.VerifSubCounter()
+	e.cur = fmt.Sprintf("run %d %d (history being generated)", ctr, sctr)
 	var outs, texts []string
 	fails := len(e.r.OracleFailures)
 	for i := 0; i < len(ops) || i < generate; i++ {
@@ -562,7 +557,7 @@ func (e *env) runHistory(ops []op, generate int) {
 		outs = append(outs, out)
 		e.r.Hit(o.kind + ":" + strings.SplitN(strings.SplitN(out, "=", 2)[0], " ", 2)[0])
 	}
-	req := fmt.Sprintf("run %d %s", ctr, strings.Join(texts, " "))
+	req := fmt.Sprintf("run %d %d %s", ctr, sctr, strings.Join(texts, " "))
 	ans := strings.Join(outs, " ") + " | " + e.stateTok()
 	e.r.Count(req, true)
 	e.r.Compare(e.d, req, ans)
@@ -673,11 +668,11 @@ func (e *env) next() op {
 
 func parseHistory(s string) ([]op, bool) {
 	f := strings.Fields(s)
-	if len(f) < 2 || f[0] != "run" {
+	if len(f) < 3 || f[0] != "run" {
 		return nil, false
 	}
 	var ops []op
-	for _, t := range f[2:] {
+	for _, t := range f[3:] {
 		o, ok := parseOp(t)
 		if !ok {
 			return nil, false
@@ -835,45 +830,45 @@ func main() {
 		return
 	}
 
-	// witnesses of the listed findings, in process
-	wit := map[string]string{
-		sigReuse:  "run 0 cs:1 cs:1 ds:1:1 ap:0 cs:2",
-		sigMode:   "run 0 cs:1 ci:1:1:1 sm:2:2:%d",
-		sigDelete: "run 0 cs:1 ci:1:1:2 di:2:%d",
-		sigStale:  "run 0 cs:1 ds:1:1 ap:0 cs:2 ci:2:1:1 ap:0",
-	}
-	inproc := map[string]bool{}
-	for _, sig := range []string{sigReuse, sigMode, sigDelete, sigStale} {
-		line := wit[sig]
-		if strings.Contains(line, "%d") {
-			line = fmt.Sprintf(line, e.srv.MonitoredItemService.VerifItemCounter()+1)
+	// the witnesses of the four repaired defects: they must pass the oracle now
+	for _, line := range []string{
+		"run 0 0 cs:1 cs:1 ds:1:1 ap:0 cs:2",
+		"run 0 0 cs:1 ci:1:%d:1 sm:2:2:%d",
+		"run 0 0 cs:1 ci:1:%d:2 di:2:%d",
+		"run 0 0 cs:1 ds:1:1 ap:0 cs:2 ci:2:%d:1 ap:0",
+	} {
+		sub := e.srv.SubscriptionService.VerifSubCounter() + 1
+		switch strings.Count(line, "%d") {
+		case 2:
+			line = fmt.Sprintf(line, sub, e.srv.MonitoredItemService.VerifItemCounter()+1)
+		case 1:
+			line = fmt.Sprintf(line, sub+1)
 		}
 		ops, _ := parseHistory(line)
-		before := e.fails[sig]
 		e.runHistory(ops, 0)
-		inproc[sig] = e.fails[sig] > before
 	}
 	for _, l := range o.CorpusLines() {
 		if ops, ok := parseHistory(l); ok {
 			e.runHistory(ops, 0)
 		}
 	}
-	// two real clients
+	// the same with two real clients over TCP
 	wReuse, wMode, wDel, note := e.wire()
 	r.TracesValidated++
 	r.Notes = append(r.Notes, "wire: "+note)
-	if inproc[sigReuse] && wReuse {
-		r.Confirm(sigReuse, "in process: create, create, delete #1, create -> id 2 while subscription 2 is alive; with two real clients: "+note)
+	if wReuse {
+		r.Fail("wire", "", "a subscription id was handed out while a subscription with that id was alive: "+note)
 	}
-	if inproc[sigMode] && wMode {
-		r.Confirm(sigMode, "session 2 sets the monitoring mode of an item of session 1: Good and the mode changes (in process and with two real clients)")
+	if wMode {
+		r.Fail("wire", "", "SetMonitoringMode of another session changed the item: "+note)
 	}
-	if inproc[sigDelete] && wDel {
-		r.Confirm(sigDelete, "session 2 deletes an item of session 1: Good and the item is gone (in process and with two real clients)")
+	if wDel {
+		r.Fail("wire", "", "DeleteMonitoredItems of another session deleted the item: "+note)
 	}
-	if inproc[sigStale] {
-		r.Confirm(sigStale, "create(s1)->1, delete 1, [background call runs], create(s2)->1, [the deferred DeleteSubscription(1) of the old goroutine runs]: subscription 1 of session 2 and its items are deleted (interleaving forced through verifPoint)")
-	}
+	// id allocation close to the wrap of the 32-bit counter: 0 is skipped
+	e.srv.SubscriptionService.VerifSetSubCounter(0xfffffffe)
+	e.runHistory([]op{{kind: "cs", sess: 1}, {kind: "cs", sess: 2}, {kind: "cs", sess: 1}}, 0)
+	e.srv.SubscriptionService.VerifSetSubCounter(0)
 
 	for i := 0; i < o.N(600, 8000) && r.InfraError == ""; i++ {
 		e.runHistory(nil, 8+e.rnd.Intn(16))
